@@ -692,7 +692,9 @@ def run_property(pid, mod, tier, seed, update_bounds=False, only=None):
             if k['text'] in seen_kf:
                 continue
             seen_kf.add(k['text'])
-            if k['still_fails']:
+            # a finding given for a family of obligations (regex) counts as reproduced if its input fails on any of them
+            fails_somewhere = any(k2['still_fails'] for r2 in results for k2 in (r2.get('known') or []) if k2['text'] == k['text'])
+            if fails_somewhere:
                 log('KNOWN-FINDING: property=%s %s' % (pid, k['text']))
             else:
                 log('NOTE: known finding no longer reproduces (%s); its blocking assumption is still applied' % k['text'])
